@@ -38,7 +38,7 @@ def module_full(name='FULL-MIB', arc=4242):
         L('str', '                 Some Town'),
         L('str', '         email:  someone@example.com"'),
         L('code', '    DESCRIPTION'),
-        L('code', '        "A module exercising every clause kind.'),
+        L('code', '        "A module exercising every clause kind. \x0c(form feed) \x0b(vertical tab) \x1c\x1d\x1e \x85 \u2028 \u2029 legal inside a string.'),
         L('str', ''),
         L('str', '         Second paragraph -- not a comment, this is text."'),
         L('code', '    REVISION "202001020304Z"'),
@@ -272,7 +272,7 @@ def module_small(name, arc, nobj=2, comment=True):
                L('code', '    SYNTAX Integer32 (0..%d)' % (10 ** (i + 1))),
                L('code', '    MAX-ACCESS read-only'),
                L('code', '    STATUS current'),
-               L('code', '    DESCRIPTION "object %d,'),
+               L('code', '    DESCRIPTION "object %d,\x0c'),
                L('str', '        described on two lines"'),
                L('code', '    ::= { %sRoot %d }' % (n, i + 1))]
     ls.append(L('end', 'END'))
